@@ -4,6 +4,9 @@ go 1.22
 
 require github.com/cube2222/octosql v0.0.0
 
-require github.com/segmentio/fasthash v1.0.3 // indirect
+require (
+	github.com/google/btree v1.1.2 // indirect
+	github.com/segmentio/fasthash v1.0.3 // indirect
+)
 
 replace github.com/cube2222/octosql => /repo
